@@ -60,6 +60,15 @@ Universe == {x \in [file : FilesU, bind : Binds, vis : Viss, e : {0, 1}, v : {0,
 -----------------------------------------------------------------------------
 (* Declarative rule *)
 
+(* Visibility merging (gABI): the visibility of a symbol in the output is the MOST CONSTRAINING visibility of all
+   its occurrences in the loaded relocatable files - definitions and undefined references alike, weak or not.  The
+   `vis` of a universe member below is the merged one; the replayed program additionally contains names defined
+   DEFAULT in one object and referenced HIDDEN / PROTECTED (by a weak and by a strong reference) from another. *)
+VisRank(v) == CASE v = "DEFAULT" -> 0 [] v = "PROTECTED" -> 1 [] v = "HIDDEN" -> 2 [] v = "INTERNAL" -> 3
+MergedVis(S) == CHOOSE v \in S : \A w \in S : VisRank(w) <= VisRank(v)
+ASSUME /\ MergedVis({"DEFAULT", "HIDDEN"}) = "HIDDEN" /\ MergedVis({"DEFAULT", "PROTECTED"}) = "PROTECTED"
+       /\ MergedVis({"PROTECTED", "HIDDEN", "DEFAULT"}) = "HIDDEN" /\ MergedVis({"DEFAULT"}) = "DEFAULT"
+
 Visible(x) == x.vis \in {"DEFAULT", "PROTECTED"}
 
 (* --exclude-libs ALL | --exclude-libs libarc.a:libthin.a : both archives are named, whatever their
